@@ -25,6 +25,7 @@
  */
 
 #include <stdlib.h>
+#include <limits.h>
 #include <stdio.h>
 #include <string.h>
 #include <stdint.h>
@@ -181,12 +182,22 @@ int main (int argc, char *argv[]) {
                 break;
             }
         }
+        ssize_t comp_size = zck_get_chunk_comp_size(tgt_idx);
+        /* Sizes come from the file; refuse ones that would overflow the
+         * totals (or the percentage calculation below) */
+        if(comp_size < 0 || comp_size > SSIZE_MAX / 100 - total_size) {
+            LOG_ERROR("ERROR: Chunk sizes in %s are too large\n",
+                      arguments.args[1]);
+            zck_free(&zck_src);
+            zck_free(&zck_tgt);
+            exit(1);
+        }
         if(!found) {
-            dl_size += zck_get_chunk_comp_size(tgt_idx);
+            dl_size += comp_size;
         } else {
             matched_chunks += 1;
         }
-        total_size += zck_get_chunk_comp_size(tgt_idx);
+        total_size += comp_size;
     }
     printf("Would download in total %lli of %lli bytes (%lli%%), %lli in the header and the rest in %lli chunks\n",
            (long long) dl_size, (long long) total_size,
